@@ -36,7 +36,8 @@ from vzstatic.source import AnalysisError, ancestors, loc, unparse
 MANIFEST = {
     'technique': ('dispatch-table totality of ParameterValue.cast against the ExternalType enum, '
                   'guard-dominates-emission rules over the CFG of the external-value traversal, '
-                  'regex-AST vs format-string skeleton comparison, sort-key check'),
+                  'regex-AST vs format-string skeleton comparison, sort-key check'
+                  '; member-wise evaluation of ParameterValue.cast; path-condition truth tables for the conditional-children walk; regex/format skeleton agreement through module constants and f-strings'),
     'level_text': (
         'Static: the cast table is total and each arm uses the matching accessor; builders '
         'declare the documented external types; children are emitted only under their active '
